@@ -49,8 +49,8 @@ def isconfigtype(obj: Any) -> bool:
 def copy_default(value: Any) -> Any:
     """
     Copy a default value so that configurations never share mutable containers with each other
-    or with the schema. Only ``list`` and ``dict`` containers are copied (recursively); every
-    other object is returned as-is.
+    or with the schema. Only ``list``, ``tuple`` and ``dict`` containers are copied (recursively);
+    every other object is returned as-is.
 
     :param value: default value
     :returns: the copied default value
@@ -59,6 +59,9 @@ def copy_default(value: Any) -> Any:
         return [copy_default(item) for item in value]
     if isinstance(value, dict):
         return {key: copy_default(item) for key, item in value.items()}
+    if type(value) is tuple:
+        # a tuple is immutable but may hold mutable containers
+        return tuple(copy_default(item) for item in value)
     return value
 
 
